@@ -21,7 +21,8 @@ WORKERS = 1
 INHERIT = ["fresh", "copy_before", "copy_after"]
 NEIGHBOURS = [{"from": "C03", "limit": 400, "why": "in-progress marking of instances in fresh contexts"},
               {"from": "C16", "limit": 400, "why": "verdicts do not depend on earlier calls re-ordering shared lists"},
-              {"from": "C11", "limit": 400, "why": "a cancelled call leaves no mark behind in its context"}]
+              {"from": "C11", "limit": 400, "why": "a cancelled call leaves no mark behind in its context"},
+              {"from": "C10", "limit": 500, "why": "the marks a call evaluates its contracts under are its own, not those of another activation of the same function"}]
 
 
 def call(f, t, cy, by):
